@@ -257,6 +257,55 @@ fn resolve_guarantees(case: &Case, used: &[u8]) -> Vec<ResolvedGuar> {
     out
 }
 
+/// Shapes of open findings (see /verif/known_findings.json): the generated search continues behind them.
+fn known_shape(case: &Case) -> Option<String> {
+    let e = &case.expr;
+    let mut sig: Option<String> = None;
+    // guarantee findings
+    let used = e.columns();
+    if used.iter().all(|i| (*i as usize) < case.cols.len()) {
+        for g in resolve_guarantees(case, &used) {
+            if g.kind != GKind::MaybeNull {
+                continue;
+            }
+            if g.lo.is_some() && g.lo == g.hi {
+                return Some("guarantee-maybenull-single-value".to_string());
+            }
+        }
+    }
+    // TRY_CAST(x) <cmp> literal / TRY_CAST(x) IN (literals): cast unwrapping
+    e.visit(&mut |n| {
+        let is_tc = |x: &E| matches!(x, E::Cast { try_: true, .. });
+        let is_lit = |x: &E| matches!(x, E::Lit(..));
+        let hit = match n {
+            // (the other operand may become a literal through folding or a guarantee)
+            E::Bin(op, l, r) if op.is_cmp() || matches!(op, Op::Distinct | Op::NotDistinct) => is_tc(l) || is_tc(r),
+            E::InList { e, list, .. } => is_tc(e) && !list.is_empty() && list.iter().all(is_lit),
+            E::Between { e, .. } => is_tc(e),
+            _ => false,
+        };
+        if hit && sig.is_none() {
+            sig = Some("unwrap-try-cast".to_string());
+        }
+    });
+    if sig.is_some() {
+        return sig;
+    }
+    e.visit(&mut |n| {
+        if let E::Func(f, args) = n {
+            if args.len() == 2 {
+                if let E::Func(g, inner) = &args[1] {
+                    let inverse = matches!((f, g), (Fun::Power, Fun::Log) | (Fun::Log, Fun::Power));
+                    if inverse && inner.len() == 2 && inner[0] == args[0] && sig.is_none() {
+                        sig = Some("log-power-inverse".to_string());
+                    }
+                }
+            }
+        }
+    });
+    sig
+}
+
 impl Property for C04 {
     type Case = Case;
     fn id(&self) -> &'static str {
@@ -297,7 +346,19 @@ impl Property for C04 {
             "an error returned by the simplifier itself is a clean rejection (discard), not a changed value".into(),
         ]
     }
+    fn known_signature(&self, case: &Case) -> Option<String> {
+        if case.cols.len() != egen::n_cols() {
+            return None;
+        }
+        known_shape(case)
+    }
     fn run(&self, case: &Case) -> CaseResult {
+        crate::df::survey(run_case(case))
+    }
+}
+
+fn run_case(case: &Case) -> CaseResult {
+    {
         if case.cols.len() != egen::n_cols() {
             return CaseResult::discard("malformed case");
         }
@@ -313,7 +374,14 @@ impl Property for C04 {
             Ok(d) => d,
             Err(e) => return CaseResult::discard(format!("schema: {e}")),
         };
-        let orig = to_expr(&case.expr, &case.cols);
+        // the optimizer runs type coercion before simplification: function arguments get the casts their
+        // signatures ask for (the trees are exactly typed otherwise, so little else changes)
+        let uncoerced = to_expr(&case.expr, &case.cols);
+        let coercer = ExprSimplifier::new(SimplifyContext::builder().with_schema(Arc::new(dfs.clone())).build());
+        let orig = match coercer.coerce(uncoerced, &dfs) {
+            Ok(e) => e,
+            Err(e) => return CaseResult::discard(format!("coerce: {}", truncate(&e.to_string(), 60))).label(format!("coerce-error-root:{}", case.expr.kind())),
+        };
         let orig_phys = match plan_expr(&orig, &dfs) {
             Ok(p) => p,
             Err(e) => return CaseResult::discard(format!("plan: {}", truncate(&e, 100))).label(format!("plan-error-root:{}", case.expr.kind())),
